@@ -389,3 +389,50 @@ func TestC06(t *testing.T) {
 func TestReplayC06(t *testing.T) { replayOnly(t); TestC06(t) }
 
 var _ = math.MaxInt64
+
+// TestC06Sweeps sends the operand-value sub-space through the worker: the
+// programs of gen.OperandSweepProg for every operand value 0..80 (the values
+// of all opcodes and some more) and 236..260 (the operand size boundary) and
+// every statement shape. Accepted programs whose operand bytes coincide with
+// opcodes must run like any other.
+func TestC06Sweeps(t *testing.T) {
+	if !firstShard() || replayPath() != "" {
+		t.Skip("runs in the first shard only")
+	}
+	rec := harness.Get("C06")
+	rec.SetScope("sweeps")
+	defer func() {
+		if theWorker != nil {
+			theWorker.kill()
+			theWorker = nil
+		}
+	}()
+	n := 0
+	var ks []int
+	for k := 0; k <= 80; k++ {
+		ks = append(ks, k)
+	}
+	for k := 236; k <= 260; k++ {
+		ks = append(ks, k)
+	}
+	for _, k := range ks {
+		for kind := 0; kind < gen.OperandSweepKinds; kind++ {
+			for _, bare := range []bool{false, true} {
+				p := gen.OperandSweepProg(k, kind)
+				if bare {
+					// nothing after the block (no later constants)
+					p.Stmts = p.Stmts[:len(p.Stmts)-2]
+				}
+				r := gen.RenderProg(p)
+				src, _ := gen.Render(r.Toks, gen.PlainLayout(r.Toks))
+				c := caseC06{Family: "operand-sweep", Note: fmt.Sprintf("operand value %d, shape %d, bare=%v", k, kind, bare), Req: workReq{Src: []byte(src), Exec: true, Chunks: []int{7}}}
+				n++
+				if viol := checkC06(c); viol != "" {
+					rec.Fail(t, c, "%s\n%s\nsource: %s", viol, c.Note, clip(src, 500))
+				}
+			}
+		}
+	}
+	rec.Count("sweep:operand-value-programs", n)
+	rec.SetExtra("exhaustive_subspace", "operand values 0..80 and 236..260 x 10 statement shapes x {with, without} statements after the block (gen.OperandSweepProg)")
+}
